@@ -15,6 +15,10 @@ CLAIMED = {
             "densities, centre overrides and frame translations (frame rotations from an exact rational catalogue). By additivity of the code over triangles and the divergence theorem the flux lemma carries the result to closed meshes of any size. "
             "This is the right level because the property is an algebraic identity, which a solver decides outright while tests only sample it.",
             TRUSTED + "divergence theorem; frame rotations restricted to the 8-element rational catalogue (2 in quick)."),
+    "C19": ("other", "DESIGN.md#c19", "symbolic execution of trimesh.transformations on z3 reals with angles as unit-circle points; algebraic identities decided by z3 nlsat per path; counterexample replay",
+            "For all unit quaternions / all angle triples (24 conventions, regular and exact-gimbal branch) / all axes, points, affine matrices inside the stated boxes the round trips and group laws hold on every path of the real code. "
+            "The branches selected by the largest diagonal element and the gimbal threshold are paths, not samples. Bounded only by the stated boxes and the sub-space union for compose/decompose.",
+            TRUSTED + "angles modulo 2 pi; eigh/svd based paths (quaternion_from_matrix(isprecise=False), rotation_from_matrix, align_vectors, fix_rigid repair), slerp interior and decompose_matrix with symbolic angles are not claimed; gimbal band 0<|cos b|<=8.9e-16 not claimed."),
 }
 
 NOT_APPLICABLE = {
